@@ -1082,7 +1082,10 @@ func runNoUntypedSkip(rc *RuleCtx) {
 }
 
 func runEncodingTable(rc *RuleCtx) {
-	except := map[string]string{"apiNoBodyStruct": "EncodingThriftBinary", "zzControlMapping": "EncodingJSON"}
+	table := map[string]string{"apiNoBodyStruct": "EncodingThriftBinary", "zzControlMapping": "EncodingJSON"}
+	for _, n := range []string{"apiPostForm", "apiQuery", "apiPath", "apiHeader", "apiCookie", "apiBody", "apiHTTPCode", "apiNone", "apiRawBody", "apiRawUri"} {
+		table[n] = "EncodingJSON"
+	}
 	p := rc.W.Pkg("thrift/annotation")
 	for _, f := range p.Syntax {
 		for _, d := range f.Decls {
@@ -1096,9 +1099,9 @@ func runEncodingTable(rc *RuleCtx) {
 			}
 			recv := types.ExprString(fd.Recv.List[0].Type)
 			recv = strings.TrimPrefix(recv, "*")
-			want := "EncodingJSON"
-			if w, ok := except[recv]; ok {
-				want = w
+			want, tabled := table[recv]
+			if !tabled {
+				continue // a mapping the table does not know is not judged
 			}
 			got := types.ExprString(ret.Results[0])
 			rc.Examined++
